@@ -25,12 +25,16 @@ def cases(tier, seed):
     n = 40 if tier == 'quick' else 240
     # line numbers are kept >= 0: segyio resolves slices through slice.indices(), which reinterprets negative LABELS as
     # positions from the end, so its results on negative line numbers are an artefact rather than a reference
-    axes = [((1, 1), (1, 1)), ((10, 2), (100, 5)), ((20, -1), (5, 1)), ((40, -2), (60, -3)), ((5, 1), (30, -1)), ((3, 1), (10, 2)), ((100, 7), (7, 7)), ((0, 1), (0, 1))]
+    axes = [((1, 1), (1, 1)), ((10, 2), (100, 5)), ((20, -1), (5, 1)), ((40, -2), (60, -3)), ((5, 1), (30, -1)), ((3, 1), (10, 2)), ((100, 7), (7, 7)), ((0, 1), (0, 1)),
+            (('to0', -1), (0, 2)), ((2, 3), ('to0', -2))]
     for i in range(n):
         (il0, ils), (xl0, xls) = axes[i % len(axes)]
         nI, nX, nZ = rng.choice([(5, 4, 7), (9, 11, 13), (6, 6, 8), (4, 9, 5), (8, 5, 12)])
-        src = conv.src_desc(rng, '3d', (nI, nX, nZ), il=[il0, ils], xl=[xl0, xls], fmt=5, valkind='smooth', dt=rng.choice([4000, 2000, 1000]), t0=rng.choice([0, 8]),
-                            hdr={'seed': rng.randrange(1 << 20), 'nfields': rng.randint(1, 3), 'inside': True})
+        # 'to0': a descending axis whose last line is numbered 0 (0 is an existing coordinate that is not the first one)
+        il0 = -ils * (nI - 1) if il0 == 'to0' else il0
+        xl0 = -xls * (nX - 1) if xl0 == 'to0' else xl0
+        src = conv.src_desc(rng, '3d', (nI, nX, nZ), il=[il0, ils], xl=[xl0, xls], fmt=5, valkind='smooth', dt=rng.choice([4000, 2000, 1000]), t0=rng.choice([0, 8, -8, -4]),
+                            hdr={'seed': rng.randrange(1 << 20), 'nfields': rng.randint(1, 3), 'inside': True}, interval_hdr=[None, None, 'bin-zero', 'bin-differs', 'trace-zero'][i % 5])
         out.append({'id': 'emu:%d:il%+d:xl%+d' % (i, ils, xls), 'src': src, 'nexpr': 150 if tier == 'quick' else 500, 'rate': rng.choice([16, 8, 4]),
                     'bs': rng.choice([[4, 4, -1], [4, 4, -1], [8, 8, -1]]), 'cost': 2})
     return out
@@ -59,6 +63,14 @@ def line_exprs(name, axis, rng, n):
         has = (rng.random() < 0.6, rng.random() < 0.6, rng.random() < 0.6)
         if step < 0:
             has = (has[0], has[1], True) if rng.random() < 0.7 else has
+        if b < 0:
+            has = (has[0], False, has[2])       # one step past a last line numbered 0 would be a negative label (see cases())
+        if step < 0 and has[2] and not has[1] and int(min(axis)) == 0:
+            # segyio's own default stop for a downward slice is (lowest line - 1) = -1 here: the same negative-label artefact, made internally;
+            # give the slice an explicit stop at an existing line instead
+            if j + 1 >= len(axis):
+                continue
+            b, has = int(axis[j + 1]), (has[0], True, has[2])
         s = '%s:%s%s' % (a if has[0] else '', b if has[1] else '', (':%d' % (m * step)) if has[2] else '')
         form = 'line[%s:%s%s]' % ('a' if has[0] else '', 'b' if has[1] else '', ':c' if has[2] else '')
         ex.append(('[np.copy(x) for x in f.%s[%s]]' % (name, s), form))
@@ -189,25 +201,43 @@ def run_case(case, ctx):
         C = segyio.tools.cube(a)
         zi = b.subvolume.zslices_int
         if len(set(zi.tolist())) == nZ:
-            for _ in range(6):
+            for _ in range(10):
                 i0, x0, z0 = rng.randrange(nI), rng.randrange(nX), rng.randrange(nZ)
                 i1, x1, z1 = rng.randrange(i0 + 1, nI + 1), rng.randrange(x0 + 1, nX + 1), rng.randrange(z0 + 1, nZ + 1)
                 m = (rng.choice([1, 2]), rng.choice([1, 2]), rng.choice([1, 3]))
 
                 def cd(axis, i):
                     return int(axis[i]) if i < len(axis) else int(axis[-1] + (axis[1] - axis[0]))
-                sl = (slice(cd(il, i0), cd(il, i1), m[0] * int(il[1] - il[0])), slice(cd(xl, x0), cd(xl, x1), m[1] * int(xl[1] - xl[0])),
-                      slice(cd(zi, z0), cd(zi, z1), m[2] * int(zi[1] - zi[0])))
+                # every part of every slice is present or omitted independently; the coordinate 0 is used as a bound whenever the axis has it
+                lo, hi, axs = [i0, x0, z0], [i1, x1, z1], [il, xl, zi]
+                for d_ in range(3):
+                    z_at = [j for j, v in enumerate(axs[d_]) if int(v) == 0]
+                    if z_at and rng.random() < 0.5:
+                        if rng.random() < 0.5 and z_at[0] < len(axs[d_]) - 0:
+                            lo[d_], hi[d_] = z_at[0], max(hi[d_], z_at[0] + 1)
+                        elif z_at[0] > 0:
+                            lo[d_], hi[d_] = min(lo[d_], z_at[0] - 1), z_at[0]
+                i0, x0, z0 = lo
+                i1, x1, z1 = hi
+                omit = [[rng.random() < 0.25 for _ in range(3)] for _ in range(3)]
+                idx, sl = [], []
+                for d_, (a_, b_, m_, ax_) in enumerate(((i0, i1, m[0], il), (x0, x1, m[1], xl), (z0, z1, m[2], zi))):
+                    o = omit[d_]
+                    idx.append(slice(None if o[0] else a_, None if o[1] else b_, None if o[2] else m_))
+                    sl.append(slice(None if o[0] else cd(ax_, a_), None if o[1] else cd(ax_, b_), None if o[2] else m_ * int(ax_[1] - ax_[0])))
+                idx, sl = tuple(idx), tuple(sl)
+                if any(s_.start == 0 or s_.stop == 0 for s_ in sl):
+                    forms.add('subvolume[bound=0]')
                 n += 1
                 forms.add('subvolume[a:b:c]')
-                want = C[i0:i1:m[0], x0:x1:m[1], z0:z1:m[2]].shape
+                want = C[idx].shape
                 try:
                     got = b.subvolume[sl]
-                    if got.shape != want or got.tobytes() != np.ascontiguousarray(V[i0:i1:m[0], x0:x1:m[1], z0:z1:m[2]]).tobytes():
+                    if got.shape != want or got.tobytes() != np.ascontiguousarray(V[idx]).tobytes():
                         bad.append({'sig': 'emulation:subvolume[a:b:c]:result-differs', 'detail': '%s: shape %s want %s' % (sl, got.shape, want)})
                 except Exception as e:  # noqa
                     bad.append({'sig': 'emulation:subvolume[a:b:c]:raises-%s' % type(e).__name__, 'detail': '%s: %r' % (sl, e)})
-    return {'violations': bad, 'counters': {'expressions': n}, 'strata': ['axes:' + dirs] + sorted('form:' + f for f in forms),
+    return {'violations': bad, 'counters': {'expressions': n}, 'strata': ['axes:' + dirs, 'interval-hdr:%s' % case['src'].get('interval_hdr')] + sorted('form:' + f for f in forms),
             'key': case['id'], 'forms': sorted(forms)}
 
 
@@ -215,7 +245,7 @@ def finalize(tier, cases, results, counters, strata):
     reasons = []
     need = ['axes:ilasc,xlasc', 'axes:ildesc,xlasc', 'axes:ildesc,xldesc', 'form:line[present]:asc', 'form:line[present]:desc', 'form:line[absent]:asc', 'form:line[:]:asc',
             'form:line[:]:desc', 'form:iter(line):asc', 'form:iter(line):desc', 'form:depth_slice[int]', 'form:trace[slice]', 'form:header[slice]', 'form:attributes[a:b]',
-            'form:bin', 'form:text[0]', 'form:tools.dt', 'form:tools.cube', 'form:subvolume[a:b:c]']
+            'form:bin', 'form:text[0]', 'form:tools.dt', 'form:tools.cube', 'form:subvolume[a:b:c]', 'form:subvolume[bound=0]', 'interval-hdr:bin-zero', 'interval-hdr:bin-differs', 'interval-hdr:trace-zero']
     for s in need:
         if s not in strata:
             reasons.append('required stratum not hit: ' + s)
